@@ -448,7 +448,7 @@ mod encoded {
                 );
                 // Now we need to clean up the byte, shifting and masking it.
                 // This shift depends on the start of the range and the valid bits.
-                let byte = (byte >> (8 - self.bit_range.0 % 8 - bits)) & ((1 << bits) - 1);
+                let byte = (byte >> (8 - self.bit_range.0 % 8 - bits)) & (((1u16 << bits) - 1) as u8);
                 // Advance our cursor to reflect the bits we have consumed.
                 self.bit_range.0 += bits;
                 Some((byte, bits))
